@@ -13,6 +13,8 @@ Record xfer_facts := {
   xf_appe_mode : string;                  (* third argument of appe's `return await self.stor(connection, rest, <>)` *)
   xf_stor_body : list string;             (* statements inside stor_worker's async with *)
   xf_retr_body : list string;             (* statements inside retr_worker's async with *)
+  xf_stor_ctx : list string;              (* items of stor_worker's async with, in order, by role *)
+  xf_retr_ctx : list string;
   xf_stor_open : string;                  (* FILE = <> *)
   xf_retr_open : string;
   xf_rest_body : list string;             (* rest() *)
